@@ -3,6 +3,7 @@
     Proofs05*.v and followed by [Print Assumptions].  Models: Model05.v (tables: Gen/*.v, regenerated
     from /repo on every run).  Specs: Spec05.v. *)
 From XV Require Import C05.Spec05 C05.Model05 C05.Proofs05a C05.Proofs05b C05.Proofs05c C05.Proofs05d C05.Proofs05e.
+From XV Require Import C05.Model05r C05.Proofs05r.
 Local Open Scope N_scope.
 
 (** the specification itself is consistent: Table 3-6 (bit distribution) and Table 3-7 (well-formed
@@ -120,6 +121,39 @@ Print Assumptions T05_can_transcode_sound.
 Theorem T05_can_transcode_supplementary : forall t sz c, 0xFFFF < c -> tab_can t sz c = false.
 Proof. exact tab_can_supplementary. Qed.
 Print Assumptions T05_can_transcode_supplementary.
+
+(** encoding detection (XMLRecognizer::basicEncodingProbe): the generated prefixes are `<?xml ` in each
+    family; an entity that starts with `<?xml ` in family e, or with e's byte order mark, is recognised as e
+    whatever follows *)
+Theorem T05_probe_prefixes :
+  fgASCIIPre = enc_units UTF_8 xml_decl_start /\ fgASCIIPre_len = length fgASCIIPre /\
+  fgUTF16BPre = enc_units UTF_16B xml_decl_start /\ fgUTF16BPre_len = length fgUTF16BPre /\
+  fgUTF16LPre = enc_units UTF_16L xml_decl_start /\ fgUTF16LPre_len = length fgUTF16LPre /\
+  fgUCS4BPre = enc_units UCS_4B xml_decl_start /\ fgUCS4BPre_len = length fgUCS4BPre /\
+  fgUCS4LPre = enc_units UCS_4L xml_decl_start /\ fgUCS4LPre_len = length fgUCS4LPre /\
+  fgEBCDICPre = enc_units EBCDIC xml_decl_start /\ fgEBCDICPre_len = length fgEBCDICPre /\
+  fgUTF8BOM = [0xEF; 0xBB; 0xBF].
+Proof. exact prefixes_ok. Qed.
+Print Assumptions T05_probe_prefixes.
+
+Theorem T05_probe_decl : forall e rest, (e = EBCDIC -> rest <> []) ->
+  probe (enc_units e xml_decl_start ++ rest) = e.
+Proof. exact probe_decl. Qed.
+Print Assumptions T05_probe_decl.
+
+Theorem T05_probe_bom16 : forall b2 b3 rest, ~ (b2 = 0 /\ b3 = 0) ->
+  probe (0xFE :: 0xFF :: b2 :: b3 :: rest) = UTF_16B /\ probe (0xFF :: 0xFE :: b2 :: b3 :: rest) = UTF_16L.
+Proof. exact probe_bom16. Qed.
+Print Assumptions T05_probe_bom16.
+
+Theorem T05_probe_bom4 : forall rest,
+  probe (0x00 :: 0x00 :: 0xFE :: 0xFF :: rest) = UCS_4B /\ probe (0xFF :: 0xFE :: 0x00 :: 0x00 :: rest) = UCS_4L.
+Proof. exact probe_bom4. Qed.
+Print Assumptions T05_probe_bom4.
+
+Theorem T05_probe_utf8_bom : forall rest, probe (0xEF :: 0xBB :: 0xBF :: rest) = UTF_8.
+Proof. exact probe_utf8_bom. Qed.
+Print Assumptions T05_probe_utf8_bom.
 
 (** non-vacuity: the hypotheses are satisfiable by non-trivial values, and the error branches are real *)
 Example T05_nonvacuous_scalars : Forall scalar [0x24; 0xA2; 0x20AC; 0x10348; 0x10FFFF].
